@@ -20,3 +20,26 @@ package dxil
 //@   ghostcall walkBlockForCalls visitedBlock block
 //@   traverse stepmark 1 block ir.Block visitedBlock($)
 //
+//
+//@ func sortSignatureElements
+//@   mode bv
+//@   tags C18 C12
+//@   order sort.SliceStable#1 [by-register-then-column]
+//
+// Start column of a component mask: index of the lowest set bit among the four
+// component bits (0 for an empty mask).
+//
+//@ func maskStartCol
+//@   mode bv
+//@   tags C18
+//@   ensures [x] (mask & 1) != 0 ==> result == 0
+//@   ensures [y] (mask & 1) == 0 && (mask & 2) != 0 ==> result == 1
+//@   ensures [z] (mask & 3) == 0 && (mask & 4) != 0 ==> result == 2
+//@   ensures [w] (mask & 7) == 0 && (mask & 8) != 0 ==> result == 3
+//@   ensures [empty] (mask & 15) == 0 ==> result == 0
+//@   pure
+//@   functional
+//@   nopanic
+//@   terminates
+//@   loop 1 invariant [scan] col <= 4 && (forall c uint8 :: c < col ==> (mask & (uint8(1) << c)) == 0)
+//@   loop 1 decreases 4 - col
